@@ -208,9 +208,42 @@ def gff3_line(cols, attrs, extra=()):
     return "\t".join(list(cols) + [";".join(parts)] + list(extra))
 
 
+TAILS = [" ", "\u00a0", "\u3000", "\x85", "   ", " \u00a0", "\u2028", "\u2003", "\u1680", "\x85 ", "\u3000\u3000"]
+LEADS = [" ", "\u00a0", "\u3000", "\x85"]
+NORM_PAIRS = [("\u00e9", "e\u0301"), ("\u00c5", "\u212b"), ("\uac00", "\u1100\u1161"), ("\u00f1", "n\u0303"), ("\u1e69", "s\u0323\u0307")]
+
+
+def near_groups(rng, cols, attrs, line):
+    """Groups of specifications whose printed lines differ from the base record's line (and from one another) only at
+    the very end / very start of the line, by letter case, or by Unicode normalisation form."""
+    def ctor(c, a, **kw):
+        return dict({"via": "ctor", "cols": list(c), "attrs": [[k, ["list", list(v)]] for k, v in a], "dialect": "default",
+                     "id": None}, **kw)
+
+    def tail(suf):
+        b = [[k, list(v)] for k, v in attrs]
+        b[-1][1][-1] += suf
+        return b
+
+    t1, t2 = rng.choice(TAILS), rng.choice(TAILS)
+    nfc, nfd = rng.choice(NORM_PAIRS)
+    groups = {
+        "tail": [ctor(cols, tail(t1)), {"via": "line", "line": line + t2}] + ([ctor(cols, tail(t1 + t2))] if rng.random() < 0.3 else []),
+        "extra": [ctor(cols, attrs, extra=[""]), {"via": "line", "line": line + "\t"}]
+                 + ([ctor(cols, attrs, extra=["", ""])] if rng.random() < 0.3 else []),
+        "case": [ctor(cols, tail("Ab")), ctor(cols, tail("aB")) if rng.random() < 0.5 else {"via": "line", "line": gff3_line(cols, tail("aB"))}],
+        "norm": [ctor(cols, tail(nfc)), ctor(cols, tail(nfd)) if rng.random() < 0.5 else {"via": "line", "line": gff3_line(cols, tail(nfd))}],
+        "lead": [ctor([rng.choice(LEADS) + cols[0]] + list(cols[1:]), attrs)],
+    }
+    if rng.random() < 0.3:
+        groups["tail"].append(ctor(cols, tail(t1), extra=[""]))
+    return groups
+
+
 def pool(rng):
     """Feature specifications around one base record: the same line twice, from a database, built directly with
-    list / tuple values, under another dialect, with one thing changed, and two equal Unicode-rich ones."""
+    list / tuple values, under another dialect, with one thing changed, two equal Unicode-rich ones, and near-equal
+    ones (near_groups)."""
     cols = [rng.choice(["chr1", "chr2L", "ctg.7-b", "chr\u00e9"]), rng.choice(["src", "FlyBase", "."]),
             rng.choice(["gene", "mRNA", "exon"]), str(rng.randrange(1, 5000)), "0", rng.choice([".", "0", "12.5"]),
             rng.choice(["+", "-", "."]), rng.choice([".", "0", "1"])]
@@ -251,6 +284,12 @@ def pool(rng):
     rest = specs[7:]
     rng.shuffle(rest)
     keep += rest[:rng.randrange(2, 6)]
+    # near-equal lines: two or three of the five groups
+    groups = near_groups(rng, cols, attrs, line)
+    names = sorted(groups)
+    rng.shuffle(names)
+    for name in names[:rng.randrange(2, 4)]:
+        keep += groups[name]
     rng.shuffle(keep)
     return keep
 
